@@ -530,7 +530,7 @@ func ruleLocks(r *Report) {
 						if cc.IsInvoke() && cc.Value == ssa.Value(x) {
 							name = cc.Method.Name()
 						} else if sc := cc.StaticCallee(); sc != nil && len(cc.Args) > 0 && cc.Args[0] == ssa.Value(x) && sc.Signature.Recv() != nil {
-							name = sc.Name()
+							name = fnName(sc)
 						}
 						if mutatingMethods[name] {
 							mode = 2
